@@ -886,6 +886,85 @@ def compare_steps(c, seg, obs, mod, res):
 
 # ---- driver ---------------------------------------------------------------------------------------
 
+def run_long_ago(c, tier):
+    """A scheduled restraint that reached the end of its schedule long ago: the engine's step counter is far beyond the step at
+    which the restraint was defined (a continued multi-microsecond job; also across 2^31 steps).  Energy and force are those
+    of the end point of the schedule, the state carries the end point, the accumulated work no longer changes."""
+    rng = c.rng.__class__(c.seed * 3571 + 9)
+    n = 8 if tier == "quick" else 60
+    cases = []
+    for i in range(n):
+        kind = ["k_cont", "centres_cont", "k_staged", "centres_staged"][i % 4]
+        N = rng.choice([4, 6, 10])
+        nst = rng.choice([2, 3]) if kind.endswith("staged") else 0
+        k0, k1 = ctl.dy(rng, 0.5, 4.0, 3), ctl.dy(rng, 5.0, 12.0, 3)
+        c0, c1 = ctl.dy(rng, 3.0, 4.0, 3), ctl.dy(rng, 5.0, 7.0, 3)
+        w = rng.choice([0.5, 1.0, 2.0])
+        body = "  name r\n  colvars d1\n  centers %s\n  forceConstant %s\n  targetNumSteps %d\n%s" % (
+            fnum(c0), fnum(k0), N, "" if nst else "  outputAccumulatedWork on\n")
+        if kind.startswith("k_"):
+            body += "  targetForceConstant %s\n" % fnum(k1)
+        else:
+            body += "  targetCenters %s\n  outputCenters on\n" % fnum(c1)
+        if nst:
+            body += "  targetNumStages %d\n" % nst
+        cfg = ctl.cv_d1(width=w) + "harmonic {\n" + body + "}\n"
+        total = N * (nst + 1) if nst else N
+        pre = total + 3
+        jump = rng.choice([1000000007, 2147483640, 2147483640, 6000000000])
+        post = 14
+        xs = [ctl.dy(rng, 3.0, 7.0, 4) for _ in range(pre + post)]
+        cases.append(dict(idx=i, kind=kind, cfg=cfg, N=N, nst=nst, k_end=(k1 if kind.startswith("k_") else k0), c_end=(c1 if kind.startswith("centres") else c0),
+                          w=w, pre=pre, post=post, jump=jump, xs=xs))
+
+    def runner(case):
+        s_ = ctl.header("off", extra="dt 1.0\ntemp 300.0") + "emit atoms off\nmodule\nconfig <<EOC\n" + case["cfg"] + "EOC\ninit\n"
+        for t in range(case["pre"]):
+            s_ += ctl.pos_line(d1=case["xs"][t]) + "\nstep\nsavestr\n"
+        s_ += "endrun\nsetstep %d\nnewrun\n" % case["jump"]
+        for t in range(case["pre"], case["pre"] + case["post"]):
+            s_ += ctl.pos_line(d1=case["xs"][t]) + "\nstep\nsavestr\n"
+        return common.run_esim("plain", s_, os.path.join(c.work, "longago%d" % case["idx"]), "L", timeout=300)
+
+    for case, (r, ev, sp) in zip(cases, common.pmap(runner, cases)):
+        c.count()
+        key = "%s:first_step_%s" % (case["kind"], "beyond_2p31" if case["jump"] >= 2 ** 31 - 100 else "large")
+        st = [e for e in ev if e["ev"] == "step"]
+        sv = [e for e in ev if e["ev"] == "savestr"]
+        bad = [e for e in ev if e["ev"] in ("config", "init") and (e.get("rc") or e.get("err"))]
+        if r["sig"]:
+            c.violation("long_ago:crash:" + key, "signal %s: %s" % (r["sig"], r["err"][-300:]), [sp], payload={"config": case["cfg"]})
+            continue
+        if not r["complete"] or bad or len(st) != case["pre"] + case["post"] or len(sv) != len(st):
+            c.inconc("long-ago schedule case %s did not run: %s" % (key, (bad[0].get("errs") if bad else r["err"][-200:])))
+            continue
+
+        def work_of(state):
+            m = re.search(r"accumulatedWork\s+(\S+)", state)
+            return float(m.group(1)) if m else None
+        w_end = work_of(sv[case["pre"] - 1]["state"])
+        ok = True
+        for j in range(case["pre"], case["pre"] + case["post"]):
+            e = st[j]
+            x = case["xs"][j]
+            E = 0.5 * case["k_end"] * ((x - case["c_end"]) / case["w"]) ** 2
+            F = -case["k_end"] * (x - case["c_end"]) / (case["w"] ** 2)
+            oe, of = fl(e["bias"]["r"]["e"]), fl(e["bias"]["r"]["f"][0][0])
+            err = [ee for ee in (e.get("errs") or [])]
+            wj = work_of(sv[j]["state"])
+            if e.get("err") or abs(oe - E) > 1e-11 * max(1.0, abs(E)) or abs(of - F) > 1e-11 * max(1.0, abs(F)) or (
+                    w_end is not None and wj is not None and abs(wj - w_end) > 1e-9 * max(1.0, abs(w_end))):
+                c.violation("long_ago:" + key, "restraint defined at step 0, schedule of %d steps over; at step %d: energy %.15g (end point of the schedule gives %.15g), "
+                            "force %.15g (%.15g), accumulated work %s (%s when the schedule ended), errors %s" % (
+                                case["N"] * (case["nst"] + 1 if case["nst"] else 1), e["it"], oe, E, of, F, wj, w_end, str(err)[:200]), [sp],
+                            payload={"config": case["cfg"]})
+                ok = False
+                break
+        if ok:
+            c.nontrivial(("long_ago", key))
+            c.bump("long_ago_steps_checked", case["post"])
+
+
 def run(tier, replay):
     c = common.Check("C06", tier)
     c.use_flavour("plain")
@@ -1029,6 +1108,8 @@ def run(tier, replay):
                 c.bump("staged_cases", 1)
                 c.extra["min_complete_stages"] = min(c.extra.get("min_complete_stages", 99), cs["T"] // cs["N"])
             c.sample(dict(combo=combo, segmentation=sg, first_step=cs["first"], steps=cs["T"], splits=cs.get("splits_" + sg)), cap=6)
+    if not only:
+        run_long_ago(c, tier)
     c.extra["restraint_types_seen"] = sorted(rtypes_seen)
     c.extra["schedule_options_seen"] = sorted(opts_seen)
     c.extra["cases"] = len(cases)
